@@ -44,6 +44,13 @@ def check_program(ctx, w, p, how):
     return True
 
 
+def site_of(w, res):
+    """component under test for an escaping exception; unbounded recursion is attributed to the decider that drives it"""
+    if res.foreign and res.foreign.startswith("RecursionError") and w.rep_kind in ("tree", "ge", "sge"):
+        return f"{w.decider_kind}-decider"
+    return w.rep_kind
+
+
 def run(ctx):
     H = ctx.H
     w = SynthWorld(ctx, feat=FEAT)
@@ -66,7 +73,7 @@ def run(ctx):
             res = w.random_op()
             ops.append((res.kind,) + tuple(res.args) + (("ok",) if res.ok else (res.error,)))
             if res.foreign:
-                ctx.violate(f"C01/error-type/{w.rep_kind}/{res.foreign}",
+                ctx.violate(f"C01/error-type/{site_of(w, res)}/{res.foreign}",
                             f"{res.kind} on {w.rep_kind} let a foreign exception escape: {res.tb}")
                 continue
             if res.kind == "map" and res.ok:
@@ -79,7 +86,7 @@ def run(ctx):
                 else:
                     m = w.op_map(idx)
                     if m.foreign:
-                        ctx.violate(f"C01/error-type/{w.rep_kind}/{m.foreign}",
+                        ctx.violate(f"C01/error-type/{site_of(w, m)}/{m.foreign}",
                                     f"mapping a genotype obtained by {res.kind} let a foreign exception escape: {m.tb}")
                     elif m.ok:
                         check_program(ctx, w, m.phenotype, f"{res.kind}+map")
